@@ -12,7 +12,7 @@ CONSTANTS MaxEv,     \* number of evaluate() calls per handle (2: Evaluate ; ReE
           AllKw,     \* TRUE: every keyword subset (valid cuts, surplus, missing); FALSE: valid cuts only
           MaxHandles,\* handles built one after the other inside one construct_dag() block (1: no sharing)
           Modes,     \* calling conventions explored: subset of {"call", "full"}
-          UserCacheOn \* TRUE: every description also as a pipeline with a user cache (first / last / all functions cached)
+          UserCacheOn \* TRUE: every description also as a pipeline with a user cache (first / all functions cached; the flag does not restrict reuse)
 
 ---------------------------------------------------------------------------
 (* Part 1: export.  One state per description. *)
@@ -21,7 +21,7 @@ DescHash(dd) == Len(dd.funcs[1].params) + 3 * Len(dd.funcs[2].params) + Len(dd.f
                 + (IF NF(dd) > 2 THEN 7 * Len(dd.funcs[3].params) + 2 * Len(dd.funcs[3].bound) ELSE 0)
 WithCache(dd, S) == IF S = {} THEN dd
                     ELSE [funcs |-> [i \in FIdx(dd) |-> [dd.funcs[i] EXCEPT !.cache = (i \in S)]], cache_type |-> "simple"]
-CacheChoice(dd)  == IF UserCacheOn THEN {{1}, {NF(dd)}, FIdx(dd)} ELSE {{}}
+CacheChoice(dd)  == IF UserCacheOn THEN {{1}, FIdx(dd)} ELSE {{}}
 LUInit == \E dd \in {x \in Universe : Valid(x) /\ DescHash(x) % NShards = Shard} : \E S \in CacheChoice(dd) : LazyInit(WithCache(dd, S))
 LUNext == UNCHANGED allvars
 LUSpec == LUInit /\ [][LUNext]_allvars
